@@ -14,3 +14,15 @@ CLAIMS["C08"] = dict(
     note=TB)
 NA["C04"] = "numerical convergence to a minimiser: no path/ordering/typestate rule is a necessary and checkable condition (DESIGN section 4, C04)"
 NA["C14"] = "numerical identity sigma = alpha*beta + tau^2 vs. exact determinant ratios: nothing structural to decide (DESIGN section 4, C14)"
+CLAIMS["C02"] = dict(
+    technique="reaching definitions + backward value flow (raw-before-barrier, value identity), lock-step list mutation check, index coherence, consumed-parameter analysis, space typing",
+    text="Decides on every path that the triple stored in the filter/history is (evaluated point, objective wrapper result, Problem.maxcv of the raw constraint values), that no barrier rewrite reaches those stores, that the filter lists move in lock-step, that best_eval and the result builder return one index-coherent triple (x through build_x), that supplied constraint values are consumed rather than re-evaluated, that violations are computed in the space of their operand, and that all three constraint kinds are aggregated. Equality of the reduced/scaled linear residual with the user's is C10's clause; tolerances are not decided.",
+    note=TB)
+CLAIMS["C03"] = dict(
+    technique="exhaustive finite-domain abstract interpretation (decision table, 1336 states) of the filter update fragment against the documented dominance order; idiom checks on the selection routine",
+    text="The filter touches values only through isnan and order comparisons, so its update has a finite abstraction: the checker interprets the update fragment's AST (own evaluator, IEEE semantics, no execution of the repo) over all 36 one-entry and 1296 two-entry abstract states and compares admission/removal/lock-step/FIFO with the reference order. Selection idioms (<= min masks, most-recent index, feasible-first, merit formula, tie-break order) and the forwarding of the penalty in force are checked structurally. The vectorised arithmetic of best_eval on real data is not decided.",
+    note=TB + " The reference dominance order D in sa/rules/c03.py is derived from the property statement and the code comments.")
+CLAIMS["C05"] = dict(
+    technique="CFG dominance of budget guards over every evaluation call site, post-dominance of the counter increment, loop analysis of the iteration cap, lock-step history lists",
+    text="Decides that every live call of the evaluation routine is dominated in its loop iteration by `counter >= maxfev -> raise MaxEvalError` (or is provably the first evaluation / dead), that the counter behind nfev has one `+= 1` site executed on every path of an evaluation, that the iteration cap dominates the main loop with one increment per iteration before any evaluation, that history lists are appended raw, in lock-step, under store_history and trimmed FIFO under `len > history_size`, and that the default budget is at least nb_points + 1.",
+    note=TB)
